@@ -548,3 +548,6 @@ def terminalvar_delegation(repo):
     except (Unknown, Raised) as e:
         raise AnalysisError(f"R19.4: TerminalVar cannot be evaluated: {e}")
     return bad
+
+# added rules (appended to the explanation the evidence file carries)
+EXPLANATION += (" " + 'Added during the build (DESIGN.md 4.31, second table): descriptor objects are shared across the instances they are read through (terminal, two Struct channels, linked channels, another terminal; every access twice).')
